@@ -185,8 +185,8 @@ def drive(PositionGrid, alg, N, text, rng):
         pg = PositionGrid(o_grid_name=f"{alg}_{N}", t_grid_name=text, position_grid_cartesian=True)
         calls = [pg.get_all_position_volumes, pg.get_borders_of_position_grid, pg.get_distances_of_position_grid, pg.get_adjacency_of_position_grid]
         rng.shuffle(calls)
-        for c in calls:
-            c()
+        from vlib.rec import call_and_hold
+        call_and_hold(calls, "C06.returned_object_stable")
         e = expected(pg)
         if e["surrounds"] and pg.t_grid.get_N_trans() >= 2:
             REC.nontrivial_case((alg, N, text))
